@@ -42,6 +42,16 @@ def shell_family(seed, n):
             b2["complete_shell"], b2["mask"] = "file_mask", pe("*.toml")
             fam.append(D.mkdef(f"sh{seed}_{i}", D.level(named[:2] + [D.altf("g9", "one", D.branch(b1), D.branch(b2))], D.NOTAIL), maxlen=1))
             continue
+        if i % 4 == 3:
+            # two positional alternatives without completers (two value placeholders live at once), and a name that is
+            # a flag in one alternative and takes a value in the other: different candidates that insert the same text
+            b1, b2 = D.posb("q1", "str"), D.posb("q2", "int")
+            b1["help"], b2["help"] = h(), h()
+            ja, jf = D.ar("j0", "one", "str", "--jobs"), D.rf("j1", "one", "--jobs")
+            ja["help"], jf["help"] = h(), h()
+            g2 = D.altf("g8", "opt", D.branch(ja), D.branch(jf))
+            fam.append(D.mkdef(f"sh{seed}_{i}", D.level(named[:2] + [g2, D.altf("g9", "opt", D.branch(b1), D.branch(b2))], D.NOTAIL), maxlen=1))
+            continue
         if i % 3 == 2:
             sub = D.level([D.sw("s0", "--deep", help=h())], D.postail(p))
             c = D.cmd(["run", "r2"], sub)
